@@ -265,6 +265,7 @@ class UnionConverter(Converter[t.Any]):
         self.types = tuple(flatten_union_args(types))
         self.converters = tuple(make_converter(ty, handlers) for ty in types)
         self.constructor = constructor
+        self.handlers = handlers
 
     def expected(self, plural: bool = False) -> str:
         """See [`Converter.expected`][pane.converters.Converter.expected]"""
@@ -289,8 +290,8 @@ class UnionConverter(Converter[t.Any]):
                     # the member accepted `val` as *data* (e.g. a mapping which also fits a dataclass member),
                     # but `val` isn't one of its values. Go on to the next member
                     pass
-        # default to regular conversion
-        return into_data(val)
+        # default to regular conversion (by the runtime type of `val`, still with the custom handlers in effect)
+        return into_data(val, custom=self.handlers if any(True for _ in self.handlers) else None)  # type: ignore
 
     def construct(self, val: t.Any, i: int) -> t.Any:
         if self.constructor is None:
